@@ -876,11 +876,16 @@ class Engine:
                     'or engine-B run (gridded tests under RNG perturbation), plus N / NBD-N / paired-T / W results and a '
                     'calibration result where computable, is written with csep.write_json at a simulated instant, reloaded with '
                     'csep.load_evaluation_result and compared field by field; optional clock-named backup saves; a generated '
-                    'lattice goes through to_dict -> from_dict and 25 probe points (interiors, corners, edges, outside) must get '
+                    'lattice (decimal, non-decimal or 0..360-convention anchor; optionally after the caller modified in place '
+                    'an array the region handed out) goes through to_dict -> from_dict and 25 probe points (interiors, corners, '
+                    'edges, just inside a cell next to an edge, outside) must get '
                     'the same cell index. distinct = digest of the producing run; non-trivial = >= 1 result round-tripped')
         return ('seeded histories of ROUNDTRIP (chains of 1-3 generations over ASCII / JSON / dict / DataFrame, header on/off, '
-                'append-to-new-file), OVERWRITE (two writes to one path, then read), CLOCK_JUMP (forward, backward, to a '
-                'zero-microsecond instant, to any instant in 1900..2200) and TZ_SWITCH on 1-3 catalogs with hostile ids, '
+                'append-to-new-file, DataFrame columns in any order), OVERWRITE (two writes to one path - replacing or '
+                'appending - then read), MUTATE (in-place filter, or a filtered copy taken and dropped), TWIN (look-alike '
+                'region), CUSTOM_LOADER (another component reads its own format through loader=), CLOCK_JUMP (forward, backward, to a '
+                'zero-microsecond instant, to any instant in 1900..2200) and TZ_SWITCH on 1-3 catalogs with hostile ids '
+                '(delimiters, quotes, blanks, NA / null / nan / number look-alikes), '
                 'instants over 1900..2200 at every millisecond phase, full-range 17-digit and short-repr doubles, with and '
                 'without region / catalog id / name; model = logical catalog per path. distinct = digest of (catalog sizes, '
                 'op list); non-trivial = >= 1 round trip of a non-empty catalog')
